@@ -834,6 +834,26 @@ func buildPool(baseSeed uint64, nGen, nExtra int, corpusDir string) []*PoolProg 
 		}
 	}
 	rx := NewRNG(deriveSeed(baseSeed, 102, 0))
+	if nExtra > 0 {
+		// a generated program can contain a statement gosk dies on, which takes the forced construct out
+		// of the pool with it: three more candidates per construct, as extra programs
+		for _, f := range programFeatures {
+			for k := 0; k < 3; k++ {
+				forceFeature = f
+				ps := genProgram(rx, fmt.Sprintf("featx%d_%s", k, f), f == "edit_twin", true)
+				forceFeature = ""
+				for i, p := range ps {
+					if a := add(p, -1); a >= 0 {
+						pool[a].Extra = true
+						if i == 1 {
+							pool[a].TwinOf = a - 1
+							pool[a-1].TwinOf = a
+						}
+					}
+				}
+			}
+		}
+	}
 	for i := 0; i < nExtra; i++ {
 		ps := genProgram(rx, fmt.Sprintf("ext%04d", i), rx.Chance(1, 3), true)
 		a := add(ps[0], -1)
